@@ -156,6 +156,61 @@ void sweep(mc::Reporter& r, char const* name, std::uint64_t& ev)
     r.sample(cat(name, ": 12 operations x every pair of value assignments; elements overlap in etl: ", overlaps));
 }
 
+// ---- elements with their OWN swap (added after seeded breakage c20_pair_swap_qualified_no_adl: pair::swap called
+// etl::swap(first, other.first) qualified, which switches argument-dependent lookup off; for a proxy-reference element
+// with assign-through semantics the generic three-move swap leaves both referenced slots with the same value).
+// Enumerated: Cell (proxy to an int slot, hidden-friend swap that counts its calls) as first / second / both elements of
+// pair and as every element position of tuple<Cell,int>, tuple<int,Cell>, tuple<Cell,Cell,int>; member swap and ADL swap of
+// the owners; referenced slots and the number of calls of Cell's own swap against std::pair / std::tuple.
+int g_cell_swaps = 0;
+struct Cell {
+    int* slot;
+    explicit Cell(int* s) : slot(s) { }
+    Cell(Cell const&) = default;
+    Cell& operator=(Cell const& o) // assign-through, like bitset::reference
+    {
+        *slot = *o.slot;
+        return *this;
+    }
+    friend void swap(Cell& a, Cell& b) noexcept
+    {
+        ++g_cell_swaps;
+        int const t = *a.slot;
+        *a.slot     = *b.slot;
+        *b.slot     = t;
+    }
+};
+
+template <template <typename...> class Own, int Shape>
+std::string cell_run(bool member)
+{
+    using std::swap;
+    using etl::swap;
+    int s[4]     = {1, 2, 3, 4};
+    g_cell_swaps = 0;
+    auto do_swap = [&](auto& a, auto& b) {
+        if constexpr (requires { swap(a, b); }) {
+            member ? a.swap(b) : swap(a, b);
+        } else {
+            a.swap(b); // tetl's tuple has no free swap (API gap)
+        }
+    };
+    if constexpr (Shape == 0) {
+        Own<Cell, int> a{Cell{&s[0]}, 10}, b{Cell{&s[1]}, 20};
+        do_swap(a, b);
+    } else if constexpr (Shape == 1) {
+        Own<int, Cell> a{10, Cell{&s[0]}}, b{20, Cell{&s[1]}};
+        do_swap(a, b);
+    } else if constexpr (Shape == 2) {
+        Own<Cell, Cell> a{Cell{&s[0]}, Cell{&s[2]}}, b{Cell{&s[1]}, Cell{&s[3]}};
+        do_swap(a, b);
+    } else {
+        Own<Cell, Cell, int> a{Cell{&s[0]}, Cell{&s[2]}, 10}, b{Cell{&s[1]}, Cell{&s[3]}, 20};
+        do_swap(a, b);
+    }
+    return cat("slots (", s[0], ",", s[1], ",", s[2], ",", s[3], "), calls of Cell's swap: ", g_cell_swaps);
+}
+
 } // namespace
 
 int main(int argc, char** argv)
@@ -176,6 +231,25 @@ int main(int argc, char** argv)
         sweep<etl::tuple, std::tuple, PadRec, char, short>(r, "tuple<PadRec,char,short>", ev);
         sweep<etl::tuple, std::tuple, PadRec, PadRec, char>(r, "tuple<PadRec,PadRec,char>", ev);
         sweep<etl::tuple, std::tuple, int, PadRec, bool>(r, "tuple<int,PadRec,bool>", ev);
+        r.count("evaluations", ev);
+        r.count("distinct_nontrivial", ev);
+    });
+    m.job("padding/adl-swap-elements", {"quick", "thorough"}, [](mc::Reporter& r) {
+        std::uint64_t ev = 0;
+        auto check = [&](char const* owner, char const* shape, bool member, std::string const& e, std::string const& s) {
+            ++ev;
+            r.outcome(mc::hash_str(s));
+            if (e != s) { r.violation("C20", cat(owner, member ? "::swap(member)" : ": swap(a,b)"), "element_with_its_own_swap", cat(owner, "<", shape, "> holding proxy cells: ", member ? "a.swap(b)" : "swap(a,b)"), cat("tetl: ", e, " | std: ", s)); }
+        };
+        for (bool member : {true, false}) {
+            check("pair", "Cell,int", member, cell_run<etl::pair, 0>(member), cell_run<std::pair, 0>(member));
+            check("pair", "int,Cell", member, cell_run<etl::pair, 1>(member), cell_run<std::pair, 1>(member));
+            check("pair", "Cell,Cell", member, cell_run<etl::pair, 2>(member), cell_run<std::pair, 2>(member));
+            check("tuple", "Cell,int", member, cell_run<etl::tuple, 0>(true), cell_run<std::tuple, 0>(true));
+            check("tuple", "int,Cell", member, cell_run<etl::tuple, 1>(true), cell_run<std::tuple, 1>(true));
+            check("tuple", "Cell,Cell,int", member, cell_run<etl::tuple, 3>(true), cell_run<std::tuple, 3>(true));
+        }
+        r.sample("pair / tuple whose elements are proxy cells with a hidden-friend swap: referenced slots and number of calls of that swap");
         r.count("evaluations", ev);
         r.count("distinct_nontrivial", ev);
     });
